@@ -63,6 +63,7 @@ types, assume_specifications, spec functions, lemmas):
                                       skipped (recorded) when no such statement exists, e.g. because the code already uses `if let` / `let else`
   //@continue_to_else <ordinal>      in the body of the n-th loop (a `for`), `if COND { continue; } REST` becomes `if COND {} else { REST }`
                                       (Verus' for-loops do not support `continue`; same control flow) - DESIGN 9.2 rule 12
+  //@letelse_continue <ordinal>      in the body of the n-th loop (a `for`), `let PAT = EXPR else { continue; }; REST` becomes `if let PAT = EXPR { REST }` (rule 12b)
   //@loopbody <ordinal> | <text>     ghost/proof line placed right after the opening brace of the n-th loop's body (erased code)
   //@loopend <ordinal> | <text>      ghost/proof line placed right before the closing brace of the n-th loop's body (fall-through end of an iteration; erased code)
   //@loopafter <ordinal> | <text>    ghost/proof line placed right after the closing brace of the n-th loop (erased code)
@@ -195,6 +196,18 @@ def _continue_to_else(body, ordinal, fname):
     if not m:
         raise CutError('fn %s: continue_to_else: no `{ continue; }` block in loop %d' % (fname, ordinal))
     return body[:m.start()] + '{} else {' + body[m.end():cb] + '}' + body[cb:]
+
+
+def _letelse_continue(body, ordinal, fname):
+    """Rule 12b: in the n-th loop (a `for`), `let PAT = EXPR else { continue; }; REST` becomes `if let PAT = EXPR { REST }`."""
+    loops = _loop_bodies(body)
+    if ordinal < 1 or ordinal > len(loops) or loops[ordinal - 1][0] != 'for':
+        raise CutError('fn %s: letelse_continue: loop %d is not a for loop' % (fname, ordinal))
+    _, ob, cb = loops[ordinal - 1]
+    m = re.compile(r'(?s)\blet\s+((?:(?!\blet\b).)*?)\s*=\s*((?:(?!\blet\b).)*?)\s*else\s*\{\s*continue\s*;\s*\}\s*;').search(body, ob, cb)
+    if not m:
+        raise CutError('fn %s: letelse_continue: no `let .. else { continue; };` in loop %d' % (fname, ordinal))
+    return body[:m.start()] + 'if let %s = %s {' % (m.group(1), m.group(2)) + body[m.end():cb] + '}' + body[cb:]
 
 
 def _replace_statement(body, needle, rep, fname):
@@ -827,9 +840,10 @@ def expand(template_path, repo='/repo'):
             mapdefaults = []
             loopends = {}
             loopafters = {}
+            lec = []
             while i + 1 < len(tpl) and (tpl[i + 1].strip().startswith('//@|') or tpl[i + 1].strip().startswith('//@loop')
                                         or tpl[i + 1].strip().startswith('//@ghost') or tpl[i + 1].strip().startswith('//@dropstmt') or tpl[i + 1].strip().startswith('//@atend') or tpl[i + 1].strip().startswith('//@before')
-                                        or tpl[i + 1].strip().startswith('//@continue_to_else') or tpl[i + 1].strip().startswith('//@loopend') or tpl[i + 1].strip().startswith('//@loopafter') or tpl[i + 1].strip().startswith('//@lift') or tpl[i + 1].strip().startswith('//@sigsubst') or tpl[i + 1].strip().startswith('//@mapor') or tpl[i + 1].strip().startswith('//@thunk') or tpl[i + 1].strip().startswith('//@okmap') or tpl[i + 1].strip().startswith('//@mapdefault')):
+                                        or tpl[i + 1].strip().startswith('//@continue_to_else') or tpl[i + 1].strip().startswith('//@letelse_continue') or tpl[i + 1].strip().startswith('//@loopend') or tpl[i + 1].strip().startswith('//@loopafter') or tpl[i + 1].strip().startswith('//@lift') or tpl[i + 1].strip().startswith('//@sigsubst') or tpl[i + 1].strip().startswith('//@mapor') or tpl[i + 1].strip().startswith('//@thunk') or tpl[i + 1].strip().startswith('//@okmap') or tpl[i + 1].strip().startswith('//@mapdefault')):
                 i += 1
                 t = tpl[i].strip()
                 if t.startswith('//@|'):
@@ -900,6 +914,8 @@ def expand(template_path, repo='/repo'):
                 elif t.startswith('//@loopbody'):
                     mm = re.match(r'//@loopbody\s+(\d+)\s*\|(.*)$', t)
                     loopbodies.setdefault(int(mm.group(1)), []).append('            ' + mm.group(2).strip())
+                elif t.startswith('//@letelse_continue'):
+                    lec.append(int(t.split()[1]))
                 elif t.startswith('//@continue_to_else'):
                     c2e.append(int(t.split()[1]))
                 elif t.startswith('//@dropstmt'):
@@ -969,6 +985,9 @@ def expand(template_path, repo='/repo'):
                     side.setdefault('normalized_statements', []).append(oinfo)
                 else:
                     side.setdefault('skipped_normalizations', []).append('%s: okmap %s (statement not present in this form)' % (name, nd))
+            for ordinal in sorted(lec, reverse=True):
+                body = _letelse_continue(body, ordinal, name)
+                side.setdefault('normalized_loops', []).append('%s: loop %d: `let P = E else { continue; }; REST` -> `if let P = E { REST }`' % (name, ordinal))
             for ordinal in c2e:
                 body = _continue_to_else(body, ordinal, name)
                 side.setdefault('normalized_loops', []).append('%s: loop %d: `if C { continue; } REST` -> `if C {} else { REST }`' % (name, ordinal))
@@ -1007,7 +1026,7 @@ def expand(template_path, repo='/repo'):
                     side.setdefault('lifted_closures', []).append(linfo)
                     continue
                 if lf.get('kind') == 'thunk':
-                    body, n_ = _thunk(body, lf['closure'], lf['name'], lf['turbofish'], name)
+                    body, n_ = _thunk(body, lf['closure'], ('Self::' if anchor != '-' else '') + lf['name'], lf['turbofish'], name)
                     expr_ = lf['closure'].strip()[2:].strip()
                     if not any(('fn %s%s()' % (lf['name'], lf['generics'])) in x for x in emitted_thunks):
                         emitted_thunks.append('fn %s%s()' % (lf['name'], lf['generics']))
